@@ -1,6 +1,9 @@
 package props
 
 import (
+	"sync/atomic"
+	"sync"
+	"runtime"
 	"bytes"
 	"context"
 	"encoding/json"
@@ -67,6 +70,7 @@ type c18inode struct {
 type c18model struct {
 	nodes map[uint64]*c18inode
 	dirs  map[uint64]map[string]uint64 // directory inode -> name -> child
+	freed int                          // inodes released so far (unlinked and forgotten): their numbers may be recycled
 }
 
 func newC18model() *c18model {
@@ -111,6 +115,7 @@ func (m *c18model) gc(id uint64) {
 	if nd, ok := m.nodes[id]; ok && id != 1 && !nd.linked && nd.lookups <= 0 {
 		delete(m.nodes, id)
 		delete(m.dirs, id)
+		m.freed++
 	}
 }
 
@@ -256,6 +261,20 @@ func newC18fs() *c18fs {
 }
 
 func (f *c18fs) close() { os.RemoveAll(f.dir) }
+
+// staging lists the backing files (named by inode number) with their content.
+func (f *c18fs) staging() string {
+	des, _ := os.ReadDir(f.dir)
+	var l []string
+	for _, de := range des {
+		if de.Type().IsRegular() {
+			b, _ := os.ReadFile(f.dir + "/" + de.Name())
+			l = append(l, fmt.Sprintf("%s=%q", de.Name(), b))
+		}
+	}
+	sort.Strings(l)
+	return strings.Join(l, ",")
+}
 
 func errno(err error) string {
 	switch err {
@@ -676,17 +695,21 @@ func TestC18(t *testing.T) {
 	}
 	rep := lib.NewReport("C18", "model_checking")
 	defer rep.Finish(t)
-	depth := 4
+	depth, extra := 4, 2
 	if lib.Thorough() {
-		depth = 6
+		depth, extra = 6, 1
 	}
-	rep.Rule = fmt.Sprintf("BFS over histories (depth <=%d) of CreateFile / MkDir / WriteFile(off 0|3, 'x'|'yz') / SetInodeAttributes(size 0|1|5) / Rename(all directory x name pairs) / Unlink / RmDir / LookUpInode / ForgetInode(n <= lookup count), names {a,b}, any live directory as parent, on the real fsMutable (fresh instance + replay per state, scratch staging dir), de-duplicated on (POSIX tree model with lookup counts, implementation dump of lookup tree / readdir map / node store / inode allocator); every transition compared with the model (result, errno; ENOSYS = declined if the state is unchanged); in every state: getattr, ReadDir with the resume protocol at 3 buffer sizes, ReadFile, inode uniqueness, and a Commit whose bundle must equal the visible tree; a fatal error of the process is a violation; distinct = distinct states", depth)
+	rep.Rule = fmt.Sprintf("BFS over histories (depth <=%d; states first reached at that depth whose history released an inode - unlinked and forgotten, so inode numbers and staging files get recycled - are explored %d more level(s)) of CreateFile / MkDir / WriteFile(off 0|3, 'x'|'yz') / SetInodeAttributes(size 0|1|5) / Rename(all directory x name pairs) / Unlink / RmDir / LookUpInode / ForgetInode(n <= lookup count), names {a,b}, any live directory as parent, on the real fsMutable (fresh instance + replay per state, scratch staging dir), de-duplicated on (POSIX tree model with lookup counts, implementation dump of lookup tree / readdir map / node store / inode allocator, staging files with content); every transition compared with the model (result, errno; ENOSYS = declined if the state is unchanged); in every state: getattr, ReadDir with the resume protocol at 3 buffer sizes, ReadFile, inode uniqueness, and a Commit whose bundle must equal the visible tree; a fatal error of the process is a violation; distinct = distinct states", depth, extra)
 	skip := []string{}
-	for attempt := 0; attempt < 12; attempt++ {
+	parallel := true
+	for attempt := 0; attempt < 24; attempt++ {
 		dir, _ := os.MkdirTemp("", "verif-c18w-")
 		journal, out := dir+"/journal", dir+"/out.json"
 		cmd := exec.Command(os.Args[0], "-test.run", "^TestC18$", "-test.timeout", "0")
-		cmd.Env = append(os.Environ(), "VERIF_C18_WORKER=1", "VERIF_C18_DEPTH="+fmt.Sprint(depth), "VERIF_C18_SKIP="+strings.Join(skip, ","), "VERIF_C18_JOURNAL="+journal, "VERIF_WORKER_OUT="+out)
+		cmd.Env = append(os.Environ(), "VERIF_C18_WORKER=1", "VERIF_C18_DEPTH="+fmt.Sprint(depth), "VERIF_C18_SKIP="+strings.Join(skip, ","), "VERIF_C18_JOURNAL="+journal, "VERIF_WORKER_OUT="+out, "VERIF_C18_EXTRA="+fmt.Sprint(extra))
+		if !parallel {
+			cmd.Env = append(cmd.Env, "VERIF_C18_WORKERS=1")
+		}
 		var buf bytes.Buffer
 		cmd.Stdout, cmd.Stderr = &buf, &buf
 		done := make(chan error, 1)
@@ -711,6 +734,13 @@ func TestC18(t *testing.T) {
 			os.RemoveAll(dir)
 			break
 		}
+		if parallel {
+			// the worker died with several operations in flight: run again, one operation at a time, to learn which
+			os.RemoveAll(dir)
+			parallel = false
+			continue
+		}
+		parallel = true
 		jb, _ := os.ReadFile(journal)
 		os.RemoveAll(dir)
 		var j struct {
@@ -757,7 +787,8 @@ func c18worker(t *testing.T) {
 		}
 	}
 	journal := os.Getenv("VERIF_C18_JOURNAL")
-	note := func(h []c18op, class string) {
+	var note func(h []c18op, class string)
+	note = func(h []c18op, class string) {
 		b, _ := json.Marshal(map[string]interface{}{"Class": class, "History": h})
 		_ = os.WriteFile(journal, b, 0o644)
 	}
@@ -766,11 +797,32 @@ func c18worker(t *testing.T) {
 	if lib.Thorough() {
 		budget = 45 * time.Minute
 	}
-	capped := false
+	workers := runtime.NumCPU()
+	fmt.Sscan(os.Getenv("VERIF_C18_WORKERS"), &workers)
+	extra := 1
+	fmt.Sscan(os.Getenv("VERIF_C18_EXTRA"), &extra)
+	var capped atomic.Bool
+	var jmu sync.Mutex
+	noteSeq := note
+	note = func(h []c18op, class string) {
+		if workers > 1 {
+			return // several operations are in flight: the parent re-runs sequentially to attribute a fatal error
+		}
+		jmu.Lock()
+		noteSeq(h, class)
+		jmu.Unlock()
+	}
 	res := lib.BFS(lib.BFSConfig[c18op]{
+		Workers:    workers,
+		ExtraDepth: extra,
+		Deepen: func(h []c18op) bool { // states whose history released an inode: the allocator and the staging files are about to be recycled
+			f, m, msg := c18build(h)
+			defer f.close()
+			return msg == "" && m.freed > 0
+		},
 		Alphabet: func(h []c18op) []c18op {
-			if capped || time.Since(start) > budget {
-				capped = true
+			if capped.Load() || time.Since(start) > budget {
+				capped.Store(true)
 				return nil
 			}
 			f, m, msg := c18build(h)
@@ -798,7 +850,8 @@ func c18worker(t *testing.T) {
 				rep.Violate("C18|step|"+last.Class+"|"+c18msgClass(msg), fmt.Sprintf("history %v: %s", h, msg), h)
 				return "" // do not explore beyond a disagreement
 			}
-			return m.canon() + " || " + f.mfs.VerifDump()
+			// the staging files are part of the state: a released inode's file stays behind and the number is recycled
+			return m.canon() + " || " + f.mfs.VerifDump() + " || staging " + f.staging()
 		},
 		Visit: func(h []c18op) {
 			cls := "initial"
@@ -823,7 +876,10 @@ func c18worker(t *testing.T) {
 		rep.Outcome(k)
 	}
 	rep.Set("depth_completed", res.Depth)
-	if capped {
+	rep.Set("deepened_roots", res.DeepenedRoots)
+	rep.Set("states_beyond_base_depth", res.StatesBeyondMaxDepth)
+	rep.Set("bfs_workers", workers)
+	if capped.Load() {
 		rep.NotExhaustive(fmt.Sprintf("time budget hit at depth %d after %d states", res.Depth, res.States))
 	}
 	rep.Sample(map[string]interface{}{"deepest_history": fmt.Sprint(res.Deepest)})
